@@ -36,9 +36,11 @@ TRUSTED_BASE = [
     "constructs); it flattens control flow in source order, which over-approximates the accesses made under each lock",
     "extraction of LdmConc.dispatch with ExtrOcamlBasic only (no Extract Constant / Extract Inductive of our own); OCaml "
     "driver ocaml/driver_body.ml",
-    "NOT mechanised: the reduction from 'every access inside the critical section of its lock + mutual exclusion' to "
-    "'critical sections behave atomically'; CPython's bytecode-level switch points; the composition of several critical "
-    "sections into one IF.LDM.3/4 call (examined at run time by the linearizability check, not proved)",
+    "mechanised (Base/Atomic.v, for every write function of the reads): a closed critical section computes what its body "
+    "computes alone; all sections of the database lock, the service lock and the reactive time-stamp locks are closed. NOT "
+    "mechanised: the correspondence between source lines and the abstract Rd/Wr actions of the summary; CPython's "
+    "bytecode-level switch points; the composition of several critical sections into one IF.LDM.3/4 call (examined at run "
+    "time by the linearizability check, not proved)",
     "run-time part: harness/sched.py replaces threading.Lock/RLock in the LDM modules by cooperative locks and parks "
     "threads at every source line of those modules (sys.settrace); line granularity; the background threads of the Thread "
     "variants are not started, their bodies (collect_trash, attend_subscriptions) run as scheduled actors",
@@ -419,6 +421,139 @@ def atom_sequences(calls, orders, limit):
     return seqs
 
 
+# ---- search for a witness order: a Python transcription of LdmConc.ldm_step PROPOSES an order (Wing-Gong search with
+# memoisation on (set of atoms done, state)); the extracted Coq model then JUDGES the proposed order.  The transcription
+# is cross-checked against the model on every sequential history (relation python_spec_vs_model).
+def spec_init():
+    return ((), 0, (), (), (), ())      # items (id, val), next id, providers, consumers, subs (token, owner), gc (pass, val)
+
+
+def spec_step(st, atom):
+    """one atomic operation of the specification: (state', result); result in the format of decode_model"""
+    items, nxt, prov, cons, subs, gc = st
+    c, a, b = atom[0], atom[1], atom[2]
+    d = dict(items)
+    if c == 1 or (c == 17 and b in prov):
+        return ((items + ((nxt, a),), nxt + 1, prov, cons, subs, gc), ("id", nxt))
+    if c == 17:
+        return (st, ("id", -1))
+    if c == 2:
+        return (st, ("val", d.get(a, -1)))
+    if c == 3:
+        if a in d:
+            return ((tuple((k, b if k == a else v) for k, v in items), nxt, prov, cons, subs, gc), ("bool", 1))
+        return (st, ("bool", 0))
+    if c == 4:
+        if a in d:
+            return ((tuple((k, v) for k, v in items if k != a), nxt, prov, cons, subs, gc), ("bool", 1))
+        return (st, ("bool", 0))
+    if c == 5 or c == 20:
+        if c == 20:
+            g = dict(reversed(gc))          # lookup finds the most recent entry of the pass
+            if a not in g:
+                return (st, ("bool", 0))
+            val = g[a]
+        else:
+            val = a
+        out, hit = [], False
+        for k, v in items:
+            if not hit and v == val:
+                hit = True
+                continue
+            out.append((k, v))
+        return ((tuple(out), nxt, prov, cons, subs, gc), ("bool", 1 if hit else 0))
+    if c == 6:
+        return (st, ("bool", 1 if a in d else 0))
+    if c == 7:
+        return (st, ("vals", sorted(v for _, v in items)))
+    if c == 18:
+        return (st, ("vals", sorted(v for _, v in items) if a in cons else []))
+    if c == 8:
+        return ((items, nxt, prov if a in prov else prov + (a,), cons, subs, gc), ("bool", 1))
+    if c == 9:
+        return ((items, nxt, tuple(x for x in prov if x != a), cons, subs, gc), ("bool", 1 if a in prov else 0))
+    if c == 10:
+        return (st, ("set", sorted(prov)))
+    if c == 11:
+        return ((items, nxt, prov, cons if a in cons else cons + (a,), subs, gc), ("bool", 1))
+    if c == 12:
+        return ((items, nxt, prov, tuple(x for x in cons if x != a), tuple(x for x in subs if x[1] != a), gc),
+                ("bool", 1 if a in cons else 0))
+    if c == 13:
+        return (st, ("set", sorted(cons)))
+    if c == 14:
+        if b in cons:
+            return ((items, nxt, prov, cons, subs + ((a, b),), gc), ("bool", 1))
+        return (st, ("bool", 0))
+    if c == 15:
+        if b in cons and any(x[0] == a for x in subs):
+            return ((items, nxt, prov, cons, tuple(x for x in subs if x[0] != a), gc), ("bool", 1))
+        return (st, ("bool", 0))
+    if c == 16:
+        return (st, ("set", sorted(x[0] for x in subs)))
+    if c == 19:
+        if b in d:
+            return ((items, nxt, prov, cons, subs, ((a, d[b]),) + gc), ("bool", 1))
+        return (st, ("bool", 0))
+    raise ValueError(atom)
+
+
+def spec_final(st):
+    items, nxt, prov, cons, subs, gc = st
+    return {"items": sorted((int(k), int(v)) for k, v in items), "next": nxt, "prov": sorted(prov), "cons": sorted(cons),
+            "subs": sorted(x[0] for x in subs)}
+
+
+def same_result(obs, r):
+    return obs is None or (obs[0] == r[0] and (list(obs[1]) == list(r[1]) if isinstance(obs[1], (list, tuple)) else obs[1] == r[1]))
+
+
+def find_witness(setup_atoms, calls, final):
+    """-> list of (call index, atom index) explaining responses and final state, or None; complete search"""
+    import sys
+    st = spec_init()
+    for at in setup_atoms:
+        st, _ = spec_step(st, at)
+    atoms = [(i, k) for i, c in enumerate(calls) for k in range(len(c["atoms"]))]
+    n = len(atoms)
+    idx = {x: y for y, x in enumerate(atoms)}
+    pred = [0] * n
+    for y, (j, l) in enumerate(atoms):
+        b = calls[j]
+        for x, (i, k) in enumerate(atoms):
+            if x == y:
+                continue
+            a = calls[i]
+            if (i == j and k < l) or (i != j and ((a["thread"] == b["thread"] and a["inv"] < b["inv"]) or a["resp"] < b["inv"])):
+                pred[y] |= 1 << x
+    full = (1 << n) - 1
+    dead = set()
+    order = []
+    sys.setrecursionlimit(10000)
+
+    def dfs(mask, st):
+        if mask == full:
+            return spec_final(st) == final
+        key = (mask, st)
+        if key in dead:
+            return False
+        for y in range(n):
+            if mask >> y & 1 or pred[y] & ~mask:
+                continue
+            i, k = atoms[y]
+            at = calls[i]["atoms"][k]
+            st2, r = spec_step(st, at)
+            if not same_result(at[3], r):
+                continue
+            order.append((i, k))
+            if dfs(mask | 1 << y, st2):
+                return True
+            order.pop()
+        dead.add(key)
+        return False
+    return list(order) if dfs(0, st) else None
+
+
 class LinChecker:
     def __init__(self, ctx):
         self.ctx = ctx
@@ -426,52 +561,67 @@ class LinChecker:
         self.model_calls = 0
         self.candidates = 0
         self.truncated = 0
+        self.witnesses = 0
 
-    def check(self, world, calls, limit=6000):
+    def judge(self, world, calls, sq, final):
+        """the extracted model evaluates one order: (ok, results, final)"""
+        ns = len(world.setup_atoms)
+        atoms = world.setup_atoms + [calls[i]["atoms"][k] for (i, k) in sq]
+        flat = self.ctx.model.batch([(1, encode_atoms(atoms))])[0]
+        self.model_calls += 1
+        self.candidates += 1
+        res, mfinal = decode_model(flat, ns + len(sq))
+        ok = mfinal == final and all(same_result(calls[i]["atoms"][k][3], r) for (i, k), r in zip(sq, res[ns:]))
+        return ok, res[ns:], mfinal
+
+    def check(self, world, calls, limit=3000):
         """-> None when some admissible order explains responses and final state, else a description"""
         final = world.final_state()
-        orders, _ = linear_extensions(calls, limit)
-        seqs = atom_sequences(calls, orders, limit)
-        if len(seqs) >= limit:
-            self.truncated += 1
         key = json.dumps([[c["thread"], c["atoms"], c["inv"] - world.n_setup_events, c["resp"] - world.n_setup_events]
                           for c in calls] + [final, world.setup_atoms], default=str)
         # the key contains the real-time stamps, so equal keys mean equal sets of admissible orders
         if key in self.cache:
             return self.cache[key]
-        reqs = []
-        for sq in seqs:
-            atoms = world.setup_atoms + [calls[i]["atoms"][k] for (i, k) in sq]
-            reqs.append((1, encode_atoms(atoms)))
+        inp = {"calls": [[c["thread"], c["op"], [a[3] for a in c["atoms"]], c["inv"], c["resp"]] for c in calls]}
+        sq = find_witness(world.setup_atoms, calls, final)
+        if sq is not None:
+            ok, res, mfinal = self.judge(world, calls, sq, final)
+            self.witnesses += 1
+            if not ok:
+                self.ctx.mismatch("python_spec_vs_model", inp, {"results": [list(r) for r in res], "final": mfinal},
+                                  {"order": sq, "final": final}, "the proposed order is not accepted by the extracted model")
+            self.cache[key] = None
+            return None
+        # no witness: confirm with the model over ALL admissible orders when their number is manageable
+        orders, _ = linear_extensions(calls, limit)
+        seqs = atom_sequences(calls, orders, limit)
+        verdict = {"orders_tried": len(seqs), "closest": None, "observed_final": final, "complete_model_enumeration": True}
+        if len(seqs) >= limit:
+            self.truncated += 1
+            verdict["complete_model_enumeration"] = False
+            seqs = seqs[:200]
+        reqs = [(1, encode_atoms(world.setup_atoms + [calls[i]["atoms"][k] for (i, k) in s])) for s in seqs]
         outs = self.ctx.model.batch(reqs) if reqs else []
         self.model_calls += 1
         self.candidates += len(reqs)
-        verdict = {"orders_tried": len(reqs), "closest": None}
-        ok = False
         ns = len(world.setup_atoms)
         best = None
-        for sq, flat in zip(seqs, outs):
-            res, mfinal = decode_model(flat, ns + len(sq))
-            bad = 0
-            for (i, k), r in zip(sq, res[ns:]):
-                obs = calls[i]["atoms"][k][3]
-                if obs is not None and tuple(obs) != tuple(r) and list(obs) != list(r):
-                    bad += 1
+        for s, flat in zip(seqs, outs):
+            res, mfinal = decode_model(flat, ns + len(s))
+            bad = sum(0 if same_result(calls[i]["atoms"][k][3], r) else 1 for (i, k), r in zip(s, res[ns:]))
             fin_bad = 0 if mfinal == final else 1
             if bad == 0 and fin_bad == 0:
-                ok = True
-                break
+                self.ctx.mismatch("python_spec_vs_model", inp, {"order": s}, None,
+                                  "the model accepts an order the Python search did not find")
+                self.cache[key] = None
+                return None
             score = bad * 2 + fin_bad
             if best is None or score < best[0]:
-                best = (score, [(calls[i]["thread"], calls[i]["op"], k) for (i, k) in sq],
-                        [list(r) for r in res[ns:]], mfinal)
-        if ok:
-            self.cache[key] = None
-        else:
-            verdict["closest"] = None if best is None else {"order": best[1], "model_results": best[2], "model_final": best[3]}
-            verdict["observed_final"] = final
-            self.cache[key] = verdict
-        return self.cache[key]
+                best = (score, [(calls[i]["thread"], calls[i]["op"], k) for (i, k) in s], [list(r) for r in res[ns:]], mfinal)
+        if best is not None:
+            verdict["closest"] = {"order": best[1], "model_results": best[2], "model_final": best[3]}
+        self.cache[key] = verdict
+        return verdict
 
 
 # ------------------------------------------------------------------------------------------------ oracle from the text
@@ -605,11 +755,13 @@ def oracle(world, calls, threads_exc, deadlock):
         if c["op"][0] == "unsub" and c["atoms"] and c["atoms"][0][3][1] == 1:
             uns.setdefault(c["op"][1], []).append(c)
     for tok, cs in uns.items():
-        if len(cs) > 1:
-            bad.append(("unsubscribe_succeeded_twice", f"subscription {tok} was reported removed by {len(cs)} calls",
-                        [c["thread"] for c in cs]))
-        if tok in fin["subs"]:
-            bad.append(("subscription_resurrected", f"subscription {tok} was unsubscribed and is stored at the end", fin["subs"]))
+        resub = [c for c in run if c["op"][0] == "sub" and c["op"][1] == tok and c["atoms"] and c["atoms"][0][3][1] == 1]
+        if len(cs) > 1 + len(resub):
+            bad.append(("unsubscribe_succeeded_twice", f"subscription {tok} was reported removed by {len(cs)} calls "
+                        f"with {len(resub)} subscribe calls for it in the run", [c["thread"] for c in cs]))
+        if tok in fin["subs"] and not resub:
+            bad.append(("subscription_resurrected", f"subscription {tok} was unsubscribed, never subscribed again, and is "
+                        "stored at the end", fin["subs"]))
     for tok, c in subs_ok.items():
         ended = tok in uns or any(d["op"][0] == "cdereg" and d["op"][1] == c["op"][2] for d in run)
         if not ended and tok not in fin["subs"]:
@@ -772,6 +924,12 @@ def sequential_cases(ctx, lin, n_cases):
             continue
         flat = ctx.model.batch([(1, encode_atoms(atoms))])[0]
         res, mfinal = decode_model(flat, len(atoms))
+        pst, pres = spec_init(), []
+        for at in atoms:
+            pst, r = spec_step(pst, at)
+            pres.append((r[0], r[1]))
+        if [list(x) for x in pres] != [list(x) for x in res] or spec_final(pst) != mfinal:
+            ctx.mismatch("python_spec_vs_model", inp, [[list(x) for x in res], mfinal], [[list(x) for x in pres], spec_final(pst)])
         res = res[len(w.setup_atoms):]
         mres = [list(r) for r, o in zip(res, observed) if o is not None]
         ires = [list(o) for o in observed if o is not None]
@@ -783,6 +941,19 @@ def sequential_cases(ctx, lin, n_cases):
 
 # ------------------------------------------------------------------------------------------------ entry points
 PAIR_OPS = ["add", "upd0", "del0", "query", "gc", "attend", "pdereg", "preg", "cdereg", "creg", "sub", "unsub"]
+
+
+# sequences in which the racing call is followed by calls that make the outcome visible / re-create the raced object
+MULTI = [
+    ("multi_cdereg_creg_sub", [["cdereg"], ["creg", "sub"]]),
+    ("multi_cdereg_creg_sub_unsub", [["cdereg", "ssnap"], ["creg", "sub", ("unsub", 61, 1)]]),
+    ("multi_unsub_sub", [["unsub", "ssnap"], [("sub", 51, 1), "ssnap"]]),
+    ("multi_del_upd_query", [["del0", "query"], ["upd0", "query"]]),
+    ("multi_add_add_query", [["add", "query"], ["add", "query"], ["query"]]),
+    ("multi_pdereg_preg_add", [["pdereg", "psnap"], [("preg", 2), "add"]]),
+    ("multi_gc_upd2_query", [["gc", "query"], ["upd2", "query"]]),
+    ("multi_attend_cdereg_sub", [["attend"], ["cdereg"], ["sub", "ssnap"]]),
+]
 
 
 def pair_plan():
@@ -839,6 +1010,9 @@ def run(ctx):
         for variant in ("Reactive", "Thread"):
             for name, progs in pair_plan():
                 run_scenario(ctx, lin, name, variant, progs, 2, 12 if quick else 150, 3 if quick else 30)
+        for variant in ("Reactive", "Thread"):
+            for name, progs in MULTI:
+                run_scenario(ctx, lin, name, variant, progs, 2, 25 if quick else 300, 5 if quick else 60)
         n_rand = 25 if quick else 200
         for i in range(n_rand):
             progs = random_programs(ctx.rng)
@@ -846,8 +1020,9 @@ def run(ctx):
             run_scenario(ctx, lin, f"random_{i}", variant, progs, 1, 6 if quick else 30, 6 if quick else 30)
     finally:
         restore()
-    ctx.sample({"linearizability": {"model_batches": lin.model_calls, "candidate_orders_evaluated": lin.candidates,
-                                    "distinct_histories": len(lin.cache), "truncated_enumerations": lin.truncated}})
+    ctx.sample({"linearizability": {"model_batches": lin.model_calls, "orders_evaluated_by_the_model": lin.candidates,
+                                    "distinct_histories": len(lin.cache), "witness_orders_confirmed_by_the_model": lin.witnesses,
+                                    "truncated_enumerations": lin.truncated}})
     ctx.exhaustive = False
 
 
